@@ -15,6 +15,7 @@ CONSTANTS
   MaxDup = 0
   MaxCancel = 0
   MaxFault = 1
+  StrictClosed = FALSE
   GenFocus = "none"
   WithHist = FALSE
 INVARIANTS QuiescentFree
